@@ -31,6 +31,12 @@ def revWorld : St :=
   { objs := [mk ⟨.rev, "p1"⟩ 1 [c08RevisionFinalizer] true, { mk lockKey 2 [] false with pkgs := ["p1", "p2"] }],
     nextRv := 3, running := [] }
 
+/-- a revision that is Inactive and skips dependency resolution but is still in the Lock -/
+def staleRevWorld : St :=
+  { objs := [{ mk ⟨.rev, "p1"⟩ 1 [c08RevisionFinalizer] true with inactive := true, skipDeps := true },
+             { mk lockKey 2 [] false with pkgs := ["p1", "p2"] }],
+    nextRv := 3, running := [] }
+
 def usageWorld : St :=
   { objs := [{ mk ⟨.usage, "u"⟩ 1 [c08UsageFinalizer] true with ref := "using", of := "used", flag := true },
              mk ⟨.res, "using"⟩ 2 [] false, { mk ⟨.res, "used"⟩ 3 [] false with inuse := true }],
